@@ -12,7 +12,9 @@ import (
 	"os"
 	"path/filepath"
 	"sort"
+	"strconv"
 	"strings"
+	"syscall"
 	"time"
 
 	"verifharness/client"
@@ -119,6 +121,7 @@ func (e *Env) Abandon() {
 		e.Hub.Kill()
 		core.Guard(func() { e.M.Shutdown() })
 		e.M = nil
+		closeLeakedFDs(e.Dir)
 	}
 }
 
@@ -126,6 +129,31 @@ func (e *Env) Close() {
 	if e.M != nil {
 		core.Guard(func() { e.M.Shutdown() })
 		e.M = nil
+		closeLeakedFDs(e.Dir)
+	}
+}
+
+// closeLeakedFDs closes the descriptors that a shut-down mint instance leaves open
+// on its data directory (the log file, the connection of the migration tool): a
+// check loads thousands of instances in one process.
+func closeLeakedFDs(dir string) {
+	ents, err := os.ReadDir("/proc/self/fd")
+	if err != nil {
+		return
+	}
+	prefix := filepath.Clean(dir) + string(filepath.Separator)
+	for _, ent := range ents {
+		n, err := strconv.Atoi(ent.Name())
+		if err != nil || n < 3 {
+			continue
+		}
+		target, err := os.Readlink("/proc/self/fd/" + ent.Name())
+		if err != nil {
+			continue
+		}
+		if strings.HasPrefix(target, prefix) {
+			syscall.Close(n)
+		}
 	}
 }
 
